@@ -539,11 +539,16 @@ class LeafBranches(Job):
             body = branches.get(key)
             shape_ok = (body is not None and len(body) == 3 and isinstance(body[0], ast.Assign) and len(body[0].targets) == 1 and isinstance(body[0].targets[0], ast.Name)
                         and isinstance(body[0].value, ast.Constant) and isinstance(body[1], ast.For) and isinstance(body[1].target, ast.Name)
-                        and ast.unparse(body[1].iter) == f"{fn.args.args[0].arg}.args" and not body[1].orelse and len(body[1].body) == 1 and isinstance(body[1].body[0], ast.AugAssign)
+                        and ast.unparse(body[1].iter) == f"{fn.args.args[0].arg}.args" and not body[1].orelse and len(body[1].body) == 1 and isinstance(body[1].body[0], (ast.AugAssign, ast.Assign))
                         and isinstance(body[2], ast.Return))
             if shape_ok:
                 acc, loopvar, aug = body[0].targets[0].id, body[1].target.id, body[1].body[0]
-                shape_ok = (isinstance(aug.target, ast.Name) and aug.target.id == acc and ast.unparse(aug.value) == f"prs({loopvar})"
+                if isinstance(aug, ast.Assign):
+                    # `acc = acc op prs(v)` is the same statement as `acc op= prs(v)`
+                    ok_as = (len(aug.targets) == 1 and isinstance(aug.targets[0], ast.Name) and isinstance(aug.value, ast.BinOp)
+                             and isinstance(aug.value.left, ast.Name) and aug.value.left.id == aug.targets[0].id)
+                    aug = ast.AugAssign(target=aug.targets[0], op=aug.value.op, value=aug.value.right) if ok_as else None
+                shape_ok = (aug is not None and isinstance(aug.target, ast.Name) and aug.target.id == acc and ast.unparse(aug.value) == f"prs({loopvar})"
                             and isinstance(body[2].value, ast.Name) and body[2].value.id == acc and type(aug.op) in (ast.Add, ast.Sub, ast.Mult, ast.Div))
             def replay(model, head=head):
                 # concrete arity-5 instance on the real converter
@@ -555,7 +560,17 @@ class LeafBranches(Job):
                 want = sum(vals) if head == "Add" else math.prod(vals)
                 return {"inputs": dict(zip("abcde", vals)), "casadi": c, "expected": want} if abs(c - want) > 1e-12 else None
 
-            if not shape_ok:
+            alt = None
+            if not shape_ok and body is not None and len(body) == 1 and isinstance(body[0], ast.Return) and isinstance(body[0].value, ast.Call):
+                # `return sum(prs(a) for a in f.args)` (Python's sum: start 0, left fold with +) / `math.prod(...)` (start 1, *)
+                cl = body[0].value
+                fname = ast.unparse(cl.func)
+                if fname in ("sum", "math.prod") and len(cl.args) == 1 and not cl.keywords and isinstance(cl.args[0], (ast.GeneratorExp, ast.ListComp)):
+                    ge = cl.args[0]
+                    if (len(ge.generators) == 1 and not ge.generators[0].ifs and isinstance(ge.generators[0].target, ast.Name)
+                            and ast.unparse(ge.generators[0].iter) == f"{fn.args.args[0].arg}.args" and ast.unparse(ge.elt) == f"prs({ge.generators[0].target.id})"):
+                        alt = (0, ast.Add) if fname == "sum" else (1, ast.Mult)
+            if not shape_ok and alt is None:
                 w = None
                 try:
                     w = replay(None)
@@ -567,8 +582,8 @@ class LeafBranches(Job):
                 else:
                     R.append(Result(self.id, name, UNDECIDED, "AST", "", 0.0, msg + " (arity 2..5 instances run on the real converter are correct)"))
                 continue
-            c0 = z3.RealVal(str(Fraction(body[0].value.value)))
-            code_op = {ast.Add: lambda a, b: a + b, ast.Sub: lambda a, b: a - b, ast.Mult: lambda a, b: a * b, ast.Div: lambda a, b: a / b}[type(aug.op)]
+            c0 = z3.RealVal(str(Fraction(body[0].value.value if alt is None else alt[0])))
+            code_op = {ast.Add: lambda a, b: a + b, ast.Sub: lambda a, b: a - b, ast.Mult: lambda a, b: a * b, ast.Div: lambda a, b: a / b}[type(aug.op) if alt is None else alt[1]]
             S = z3.Function(f"S_{head}", z3.IntSort(), z3.RealSort())
             i, n_ = z3.Ints("i n")
             sacc = z3.Real("acc")
@@ -580,15 +595,37 @@ class LeafBranches(Job):
         name = "sympy_to_casadi: matrix of ANY shape converted entry by entry (nested loop invariants)"
         body = branches.get("sympy.matrices.dense.MutableDenseMatrix")
         ok_shape = False
+        pn = fn.args.args[0].arg
+        if body is not None:
+            # leading aliases of the shape (`n_rows, n_cols = f.shape`, `m = f.shape[0]`) are resolved textually
+            import re as _re
+            alias = {}
+            body = list(body)
+            while body and isinstance(body[0], ast.Assign) and len(body[0].targets) == 1:
+                t, v = body[0].targets[0], ast.unparse(body[0].value)
+                if isinstance(t, ast.Tuple) and len(t.elts) == 2 and all(isinstance(e_, ast.Name) for e_ in t.elts) and v == f"{pn}.shape":
+                    alias[t.elts[0].id], alias[t.elts[1].id] = f"{pn}.shape[0]", f"{pn}.shape[1]"
+                elif isinstance(t, ast.Name) and v in (f"{pn}.shape[0]", f"{pn}.shape[1]"):
+                    alias[t.id] = v
+                else:
+                    break
+                body = body[1:]
+
+            def U(node):
+                txt = ast.unparse(node)
+                for a_, v_ in alias.items():
+                    txt = _re.sub(rf"\b{_re.escape(a_)}\b", v_, txt)
+                return txt
         if body is not None and len(body) == 3 and isinstance(body[0], ast.Assign) and isinstance(body[1], ast.For) and isinstance(body[2], ast.Return):
             outer = body[1]
             inner = outer.body[0] if len(outer.body) == 1 and isinstance(outer.body[0], ast.For) else None
             if inner is not None and len(inner.body) == 1 and isinstance(inner.body[0], ast.Assign):
                 m = ast.unparse(body[0].targets[0])
                 iv, jv = ast.unparse(outer.target), ast.unparse(inner.target)
-                ok_shape = (ast.unparse(body[0].value) == "ca.SX(f.shape[0], f.shape[1])" and ast.unparse(outer.iter) == "range(f.shape[0])"
-                            and ast.unparse(inner.iter) == "range(f.shape[1])" and ast.unparse(inner.body[0].targets[0]) == f"{m}[{iv}, {jv}]"
-                            and ast.unparse(inner.body[0].value) == f"prs(f[{iv}, {jv}])" and ast.unparse(body[2].value) == m and iv != jv)
+                ok_shape = (U(body[0].value) == f"ca.SX({pn}.shape[0], {pn}.shape[1])" and U(outer.iter) == f"range({pn}.shape[0])"
+                            and U(inner.iter) == f"range({pn}.shape[1])" and ast.unparse(inner.body[0].targets[0]) == f"{m}[{iv}, {jv}]"
+                            and ast.unparse(inner.body[0].value) == f"prs({pn}[{iv}, {jv}])" and ast.unparse(body[2].value) == m and iv != jv
+                            and iv not in alias and jv not in alias)
         if not ok_shape:
             R.append(Result(self.id, name, UNDECIDED, "AST", "", 0.0, "branch is not the canonical `mat = ca.SX(r, c); for i in range(r): for j in range(c): mat[i, j] = prs(f[i, j]); return mat`"))
         else:
@@ -681,6 +718,8 @@ class LeafBranches(Job):
                         if not isinstance(t, ast.Subscript):
                             bind(t)
                 elif isinstance(node, ast.For) and is_derived(node.iter):
+                    bind(node.target)
+                elif isinstance(node, ast.comprehension) and is_derived(node.iter):
                     bind(node.target)
         bad = []
         n_calls = 0
